@@ -3,9 +3,9 @@
     Jsonx/LexProofs.v, ParseProofs.v, Term.v, TermLegacy.v or ConstsGen.v.
     [pf] is strconv.ParseFloat on a float token and [ff] json.Marshal of a
     float64: arbitrary functions, so the theorems hold whatever they return. *)
-From Coq Require Import List NArith ZArith Bool String.
+From Coq Require Import List NArith ZArith Bool String Sorted.
 From Verif Require Import Lib.Utf8 Jsonx.Lex Jsonx.Tok Jsonx.GoStr Jsonx.Parse Jsonx.Json
-  Jsonx.Encode Jsonx.LexProofs Jsonx.ParseProofs Jsonx.Term Jsonx.Balance Jsonx.TermLegacy
+  Jsonx.Encode Jsonx.LexProofs Jsonx.ParseProofs Jsonx.Term Jsonx.Balance Jsonx.Seen Jsonx.Pos Jsonx.TermLegacy
   Jsonx.GenTypes Gen.JsonxConsts Jsonx.ConstsGen.
 Import ListNotations.
 Local Open Scope N_scope.
@@ -28,6 +28,27 @@ Theorem C08_tokens_spell_input : forall input toks,
   jsonx_raw_tokens input = Ok toks -> spelled is_white toks input.
 Proof. exact (fun input => lex_all_spelled lex_jsonx is_white lex_jsonx_takes _ input). Qed.
 Print Assumptions C08_tokens_spell_input.
+
+(** Positions.  The (line, column) a token carries - and with it every
+    lexing error found in that token - is the position of its first rune in
+    the input text: line 1 + the number of line feeds before it, column in
+    runes from 1 after the last line feed ([adv_all start_pos pre] for the
+    text [pre] before the token); positions grow strictly from token to
+    token. *)
+Theorem C08_token_positions : forall input toks,
+  jsonx_raw_tokens input = Ok toks ->
+  let ps := tok_positions is_white start_pos toks input in
+  Forall2 (fun te p => exists pre rest, input = pre ++ tlit (fst te) ++ rest /\ p = adv_all start_pos pre)
+          toks ps /\ Sorted pos_lt ps.
+Proof. exact jsonx_token_positions. Qed.
+Print Assumptions C08_token_positions.
+
+Example C08_positions_example :
+  match jsonx_raw_tokens [123; 10; 32; 97; 58; 233; 32; 49; 10; 125] with
+  | Ok raw => tok_positions is_white start_pos raw [123; 10; 32; 97; 58; 233; 32; 49; 10; 125]
+  | _ => []
+  end = [(1, 1); (1, 2); (2, 2); (2, 3); (2, 4); (2, 6); (2, 7); (3, 1)]%N.
+Proof. vm_compute. reflexivity. Qed.
 
 (** The parser: fuel [2 * tokens + 8] is never exhausted, whatever the token
     stream (parseValue, and parseSeries with its SkipErrStmt recovery). *)
@@ -58,6 +79,32 @@ Theorem C08_decode_series_total :
   exists r, decode_series pf ff tm input = Ok r /\ value_or_error r.
 Proof. exact (fun F pf ff => decode_series_total pf ff). Qed.
 Print Assumptions C08_decode_series_total.
+
+(** A Decoder used for several values: each Decode call returns (a value, or
+    errors); a call that returns a value has consumed at least one token, so
+    the loop "for dec.More() { dec.Decode(..) }" ends on every input - with
+    More() false or with the first error. *)
+Theorem C08_decode_step_total :
+  forall (F : Type) (pf : list N -> option F) (ff : F -> list N) st,
+  exists r, decode_step pf ff st = Some r.
+Proof. exact (fun F pf ff => decode_step_total pf ff). Qed.
+Print Assumptions C08_decode_step_total.
+
+Theorem C08_decode_step_progress :
+  forall (F : Type) (pf : list N -> option F) (ff : F -> list N) st t st',
+  good st -> decode_step pf ff st = Some (DOk t, st') ->
+  good st' /\ (msr st' < msr st)%nat.
+Proof.
+  exact (fun F pf ff st t st' Hg H =>
+    conj (good_reach _ _ (decode_step_reach pf ff _ _ _ H) Hg) (decode_step_progress pf ff st t st' Hg H)).
+Qed.
+Print Assumptions C08_decode_step_progress.
+
+Theorem C08_decode_stream_total :
+  forall (F : Type) (pf : list N -> option F) (ff : F -> list N) input,
+  exists r, decode_all pf ff input = Ok r.
+Proof. exact (fun F pf ff => decode_all_total pf ff). Qed.
+Print Assumptions C08_decode_stream_total.
 
 Theorem C08_shell_parse_total : forall input,
   exists r, shell_parse input = Ok r /\ value_or_error r.
@@ -116,6 +163,96 @@ Theorem C08_unbalanced_rejected_series :
 Proof. exact (fun F pf ff => decode_series_ok_balanced pf ff). Qed.
 Print Assumptions C08_unbalanced_rejected_series.
 
+(** What the caller sees of the error handling, for every entry point and
+    every input.  The list of errors returned is not empty and holds at most
+    20 errors (the cap of lexing.ErrorList), however many errors the input
+    has; a result comes with no error. *)
+Theorem C08_to_json_caller_sees :
+  forall (F : Type) (pf : list N -> option F) (ff : F -> list N) input r,
+  to_json pf ff input = Ok r ->
+  ((exists out, r = (Some out, [])) \/ (exists e es, r = (None, e :: es))) /\ (List.length (snd r) <= 20)%nat.
+Proof. exact (fun F pf ff => to_json_seen pf ff). Qed.
+Print Assumptions C08_to_json_caller_sees.
+
+Theorem C08_decode_series_caller_sees :
+  forall (F : Type) (pf : list N -> option F) (ff : F -> list N) tm input r,
+  decode_series pf ff tm input = Ok r ->
+  ((exists res, r = (Some res, [])) \/ (exists e es, r = (None, e :: es))) /\ (List.length (snd r) <= 20)%nat.
+Proof. exact (fun F pf ff => decode_series_seen pf ff). Qed.
+Print Assumptions C08_decode_series_caller_sees.
+
+Theorem C08_decode_caller_sees :
+  forall (F : Type) (pf : list N -> option F) (ff : F -> list N) input vs es,
+  decode_all pf ff input = Ok (vs, Some (DErrs es)) -> es <> [] /\ (List.length es <= 20)%nat.
+Proof. exact (fun F pf ff => decode_all_seen pf ff). Qed.
+Print Assumptions C08_decode_caller_sees.
+
+(** Unmarshal is one Decode, then More, then the look at the errors found
+    while reading up to the end; it returns the first error of the list. *)
+Theorem C08_unmarshal_is_one_decode :
+  forall (F : Type) (pf : list N -> option F) (ff : F -> list N) s r,
+  unmarshal_stream pf ff s = Some r ->
+  exists d st', decode_step pf ff (p_init s) = Some (d, st') /\
+    match d with
+    | DErrs (e :: _) => r = UErr e
+    | DErrs [] => False
+    | DJsonErr t => r = UJsonErr t
+    | DOk t => r = if more st' then UMore else
+                   match p_errs st' with [] => UOk t | e :: _ => UErr e end
+    end.
+Proof. exact (fun F pf ff => unmarshal_is_decode_step pf ff). Qed.
+Print Assumptions C08_unmarshal_is_one_decode.
+
+(** strtoken.Parse: lexing errors are capped; the errors for strings that
+    strconv.Unquote rejects are a plain slice, one per token at most. *)
+Theorem C08_shell_parse_caller_sees : forall input r,
+  shell_parse input = Ok r ->
+  ((exists ss, r = (Some ss, [])) \/ (exists e es, r = (None, e :: es))) /\
+  exists raw, shell_raw_tokens input = Ok raw /\
+    (all_lex_errs raw <> [] -> snd r = all_lex_errs raw /\ (List.length (snd r) <= 20)%nat) /\
+    (all_lex_errs raw = [] -> (List.length (snd r) <= List.length raw)%nat).
+Proof. exact shell_parse_seen. Qed.
+Print Assumptions C08_shell_parse_caller_sees.
+
+(** Acceptance is impossible once any error was recorded: when an entry
+    point returns a result, the parser state it ends in has an empty error
+    list, the lexer's list is empty up to the token it stopped at, and no
+    sequence of parser operations containing an ErrorList.Add leads to that
+    state ([reach]: Next / Add / BailOut steps). *)
+Theorem C08_to_json_accept_no_error_recorded :
+  forall (F : Type) (pf : list N -> option F) (ff : F -> list N) s out errs,
+  to_json_stream pf ff s = Some (Some out, errs) ->
+  exists v st1, parse_value pf (parse_fuel (p_init s)) (p_init s) = Some (v, st1) /\
+    p_errs st1 = [] /\ forall e st, ~ reach (p_add e st) st1.
+Proof. exact (fun F pf ff => to_json_stream_accept_clean pf ff). Qed.
+Print Assumptions C08_to_json_accept_no_error_recorded.
+
+Theorem C08_decode_accept_no_error_recorded :
+  forall (F : Type) (pf : list N -> option F) (ff : F -> list N) st t st',
+  decode_step pf ff st = Some (DOk t, st') ->
+  exists v st1, parse_value pf (parse_fuel st) st = Some (v, st1) /\
+    p_errs st1 = [] /\ (forall e st0, ~ reach (p_add e st0) st1) /\
+    perrs st' = [] /\ (forall e st0, ~ reach (p_add e st0) st').
+Proof. exact (fun F pf ff => decode_step_accept_clean pf ff). Qed.
+Print Assumptions C08_decode_accept_no_error_recorded.
+
+Theorem C08_unmarshal_accept_no_error_recorded :
+  forall (F : Type) (pf : list N -> option F) (ff : F -> list N) s t,
+  unmarshal_stream pf ff s = Some (UOk t) ->
+  exists st', decode_step pf ff (p_init s) = Some (DOk t, st') /\
+    more st' = false /\ p_errs st' = [] /\ forall e st, ~ reach (p_add e st) st'.
+Proof. exact (fun F pf ff => unmarshal_stream_accept_clean pf ff). Qed.
+Print Assumptions C08_unmarshal_accept_no_error_recorded.
+
+Theorem C08_decode_series_accept_no_error_recorded :
+  forall (F : Type) (pf : list N -> option F) (ff : F -> list N) tm s res errs,
+  decode_series_stream pf ff tm s = Some (Some res, errs) ->
+  exists es st1, parse_series pf (parse_fuel (p_init s)) (p_init s) [] = Some (es, st1) /\
+    p_errs st1 = [] /\ (forall e st, ~ reach (p_add e st) st1) /\
+    fold_left (series_entry ff tm) es ([], []) = ([], res).
+Proof. exact (fun F pf ff => decode_series_stream_accept_clean pf ff). Qed.
+Print Assumptions C08_decode_series_accept_no_error_recorded.
+
 (** The loop SkipErrStmt had before the repair cannot leave EOF with any
     amount of fuel (the hang of DecodeSeries("x {")). *)
 Theorem C08_legacy_skip_refuted : forall fuel r c fin,
@@ -168,7 +305,7 @@ Print Assumptions C08_source_agrees_with_model.
 
 (** "x {" — the input that never returned — now ends with errors. *)
 Example C08_x_brace :
-  decode_series (fun _ => @None N) (fun _ => []) (fun _ => true) [120; 32; 123]
+  decode_series (fun _ => @None N) (fun _ => []) (fun _ => Some (fun _ => true)) [120; 32; 123]
   = Ok (None, [EExpectObjectEntry]).
 Proof. vm_compute. reflexivity. Qed.
 
@@ -186,9 +323,30 @@ Example C08_trailing_comment_example :
   unmarshal (fun _ => @None N) (fun _ => []) [49; 59; 47; 42] = Ok (UErr EUnexpectedEOF).
 Proof. vm_compute. reflexivity. Qed.
 
+(** Three values from one Decoder, then More() is false; and a stream whose
+    third value is cut. *)
+Example C08_stream_example :
+  decode_all (fun _ => @None N) (fun _ => []) [49; 32; 123; 97; 58; 49; 125; 10; 91; 93; 59]
+  = Ok ([[49]; [123; 34; 97; 34; 58; 49; 125]; [91; 93]], None).
+Proof. vm_compute. reflexivity. Qed.
+
+Example C08_stream_cut_example :
+  decode_all (fun _ => @None N) (fun _ => []) [49; 32; 123; 97; 58; 49; 125; 10; 91]
+  = Ok ([[49]; [123; 34; 97; 34; 58; 49; 125]], Some (DErrs [EExpectOperand])).
+Proof. vm_compute. reflexivity. Qed.
+
+(** A typed series: the second entry's text is rejected by the strict
+    decoding of its type, so the call fails with jsonx.marshalJSON. *)
+Example C08_typed_series_example :
+  decode_series (fun _ => @None N) (fun _ => [])
+    (fun n => if list_N_eqb n [120] then Some (fun t => negb (list_N_eqb t [91; 49; 44; 50; 93])) else None)
+    [120; 32; 123; 97; 58; 49; 125; 10; 120; 32; 91; 49; 44; 50; 93; 10]
+  = Ok (None, [EMarshalJSON]).
+Proof. vm_compute. reflexivity. Qed.
+
 (** A series file that parses: fuel, values and no errors. *)
 Example C08_series_example :
-  decode_series (fun _ => @None N) (fun _ => []) (fun _ => true)
+  decode_series (fun _ => @None N) (fun _ => []) (fun _ => Some (fun _ => true))
     [120; 32; 123; 97; 58; 49; 125; 10; 121; 32; 91; 49; 44; 50; 93; 10]
   = Ok (Some [([120], [123; 34; 97; 34; 58; 49; 125]); ([121], [91; 49; 44; 50; 93])], []).
 Proof. vm_compute. reflexivity. Qed.
@@ -208,7 +366,7 @@ Fixpoint rep_list (n : nat) (l : list N) : list N :=
   match n with O => [] | S k => l ++ rep_list k l end.
 
 Example C08_many_errors_example :
-  match decode_series (fun _ => @None N) (fun _ => []) (fun _ => true)
+  match decode_series (fun _ => @None N) (fun _ => []) (fun _ => Some (fun _ => true))
           (rep_list 21 [49; 32; 123; 125; 10]) with       (* "1 {}\n" x 21 *)
   | Ok (None, errs) => List.length errs
   | _ => 0%nat
